@@ -1,7 +1,7 @@
 """C16 - TypeContext lookups see through aliases and references (model-based, stateful).
 
-Keys: a closed family synthesised in one module: 4 base classes (dataclass D, Enum E,
-NamedTuple N, the nested class X = Outer.Inner) and the builtin int (base I, whose naming reference lives in another module than its aliases) x {itself, NewType, TypeAliasType(value), TypeAliasType('string'), Final[..],
+Keys: a closed family synthesised in one module: 5 base classes (dataclass D, Enum E,
+NamedTuple N, the nested class X = Outer.Inner, the typing.Generic subclass G = Box) and the builtin int (base I, whose naming reference lives in another module than its aliases) x {itself, NewType, TypeAliasType(value), TypeAliasType('string'), Final[..],
 ForwardRef(name, module), NewType of the NewType, Final[alias], alias of the NewType}.  Operations: insert fresh key, [], get(k, default), `in` (stored keys).
 
 Oracle: a reference model (write-once dict + the documented three-step lookup). The harness
@@ -10,7 +10,7 @@ knows each key's unwrapped form and naming reference *by construction*.
 * exhaustive part: breadth-first exploration of all operation sequences up to length 6 for every
   pair of base types, with prefix-state deduplication (two prefixes that leave the same context
   contents have the same futures);
-* random part: a Hypothesis RuleBasedStateMachine, up to 40 steps over all 46 keys.
+* random part: a Hypothesis RuleBasedStateMachine, up to 40 steps over all 55 keys.
 """
 
 from __future__ import annotations
@@ -28,7 +28,7 @@ from harness.core import st
 
 ID = "C16"
 RULE = ("exhaustive BFS of all operation sequences of length <= 5 (quick) or 6 (thorough) per pair of base types with state "
-        "deduplication, plus random state-machine histories of <= 40 steps over 46 keys; non-trivial = a lookup "
+        "deduplication, plus random state-machine histories of <= 40 steps over 55 keys; non-trivial = a lookup "
         "answered through the unwrapped-form or forward-reference path, or any lookup issued after a lookup "
         "that memoised an alias key; distinct by (context contents before the operation, operation)")
 ASSUMPTIONS = ["base types are module-level classes so that 'the forward reference naming it' is one well-defined object",
@@ -38,7 +38,7 @@ LEVEL_TEXT = ("Every operation sequence up to length 5 (quick) / 6 (thorough) ov
               "real TypeContext and a 20-line reference model (complete for that bound); longer random histories over all "
               "37 keys are explored with a Hypothesis state machine.")
 LEVEL_NOTE = "trusts the reference model's reading of the three-step lookup order and typing.ForwardRef equality (name, module)"
-EXHAUSTIVE_NOTE = "all sequences of length <= 5 (quick) / <= 6 (thorough) over {insert, [], get, in} x 16 keys for each of 5 pairs of base types (deduplicated by reachable context contents)"
+EXHAUSTIVE_NOTE = "all sequences of length <= 5 (quick) / <= 6 (thorough) over {insert, [], get, in} x 16 keys for each of 6 pairs of base types (deduplicated by reachable context contents)"
 
 MOD = "c16_keys_mod"
 SRC = '''
@@ -55,6 +55,11 @@ class E(enum.Enum):
 class N(NamedTuple):
     y: int
 
+_T = typing.TypeVar("_T")
+class Box(typing.Generic[_T]):     # base G: a user class deriving from typing.Generic (bare, unparameterised)
+    def __init__(self, item=None):
+        self.item = item
+
 class Outer:
     @dataclasses.dataclass
     class Inner:          # base X: a class nested in a class, named by the dotted text "Outer.Inner"
@@ -63,7 +68,7 @@ class Outer:
 KEYS = {}
 # base I is the builtin `int`: its aliases live in this module, the class itself does not, so the reference a
 # string-valued alias unwraps to (module = this module) and the reference naming the class (module = builtins) differ
-for _n, _b, _txt in (("D", D, "D"), ("E", E, "E"), ("N", N, "N"), ("I", int, "int"), ("X", Outer.Inner, "Outer.Inner")):
+for _n, _b, _txt in (("D", D, "D"), ("E", E, "E"), ("N", N, "N"), ("I", int, "int"), ("X", Outer.Inner, "Outer.Inner"), ("G", Box, "Box")):
     KEYS[_n, "self"] = _b
     KEYS[_n, "newtype"] = NewType(_n + "_new", _b)
     KEYS[_n, "alias"] = TypeAliasType(_n + "_alias", _b)
@@ -78,8 +83,8 @@ for _n, _b, _txt in (("D", D, "D"), ("E", E, "E"), ("N", N, "N"), ("I", int, "in
 '''
 
 FORMS = ["self", "newtype", "alias", "stralias", "final", "ref", "newtype2", "finalalias", "aliasnew"]
-BASES = ["D", "E", "N", "I", "X"]
-BFS_PAIRS = [("D", "E"), ("D", "N"), ("E", "N"), ("I", "D"), ("X", "D")]
+BASES = ["D", "E", "N", "I", "X", "G"]
+BFS_PAIRS = [("D", "E"), ("D", "N"), ("E", "N"), ("I", "D"), ("X", "D"), ("G", "E")]
 
 
 def forms_of(base):
